@@ -870,7 +870,7 @@ def oracle(case, obs):
             if not acts and inst:
                 return f"step {si}: activated flow {fid} is still running ({inst[0]['uid']}) although no running flow activates it"
             if len(inst) > 1 and fid not in early:
-                return f"step {si}: activated flow {fid} has {len(inst)} running instances (restarted more than once)"
+                return f"step {si}: activated flow {fid} has {len(inst)} running instances (restarted more than once): " + ", ".join(x["uid"] for x in inst)
     return None
 
 
